@@ -227,4 +227,9 @@ def suite_reentrant(ctx):
     return reentrant.suite_reentrant(ctx)
 
 
-SUITES = [suite_echo, suite_service_id, suite_callw, suite_reentrant, suite_unlock_echo]
+def suite_user_code(ctx):
+    """an application that extends the library with classes of its own (child process: harness/user_child.py vendor_service)"""
+    return core.suite_user_code('vendor_service', 'send_request')
+
+
+SUITES = [suite_echo, suite_service_id, suite_callw, suite_reentrant, suite_unlock_echo, suite_user_code]
